@@ -84,7 +84,14 @@ def base_programs(tier, rng):
              b'x <- 10\nCASE OF x\n  1 : OUTPUT "one"\n  5 TO 20 : OUTPUT "mid"\n      OUTPUT "again"\n  OTHERWISE : OUTPUT "other"\nENDCASE\n',
              b'FUNCTION f(a : INTEGER)\n  RETURNS INTEGER\n  RETURN a * 2\nENDFUNCTION\nOUTPUT f(4)\nOUTPUT 1 / 0\nOUTPUT 3\n',
              b'PROCEDURE p(n : INTEGER)\n  IF n > 0 THEN\n    CALL p(n - 1)\n  ELSE\n    OUTPUT undefined_name\n  ENDIF\nENDPROCEDURE\nCALL p(3)\n',
-             b'OUTPUT 5 / 2\nOUTPUT 7 DIV 2\nx <- 9\nOUTPUT x\n', b'OUTPUT (1)\nOUTPUT(2)\n']
+             b'OUTPUT 5 / 2\nOUTPUT 7 DIV 2\nx <- 9\nOUTPUT x\n', b'OUTPUT (1)\nOUTPUT(2)\n',
+             # keywords that may stand on a line of their own: the line break in front of them is layout too
+             b'x <- 0\nWHILE x < 3\nDO\n  x <- x + 1\n  OUTPUT x\nENDWHILE\nOUTPUT 1 DIV 0\n',
+             b'x <- 0\nWHILE x < 2\n  DO\n  x <- x + 1\nENDWHILE\nOUTPUT x\n',
+             b'x <- 4\nIF x > 3\nTHEN\n  OUTPUT "big"\nELSE IF x > 1\nTHEN\n  OUTPUT "mid"\nELSE\n  OUTPUT "small"\nENDIF\nOUTPUT undefined_name\n',
+             b'x <- 2\nCASE OF x\n  1 : OUTPUT "one"\n  2 :\n      OUTPUT "two"\n      OUTPUT "still two"\n  OTHERWISE :\n      OUTPUT "other"\nENDCASE\n',
+             b'i <- 0\nREPEAT\n  i <- i + 1\n  OUTPUT i\nUNTIL i >= 2\nFOR j <- 1 TO 2\n  OUTPUT j\nNEXT j\nFOR k <- 1 TO 2 STEP 1\n  OUTPUT k\nNEXT\n',
+             b'PROCEDURE p(BYREF a : INTEGER, b : INTEGER)\n  a <- a + b\nENDPROCEDURE\nDECLARE v : INTEGER\nv <- 1\nCALL p(v, 2)\nOUTPUT v\nTYPE E = (e1, e2)\nTYPE P = ^INTEGER\nDECLARE q : P\nq <- ^v\nOUTPUT q^\n']
     return [p for p in progs + extra + small if transformable(p)]
 
 def generate(tier, rng):
@@ -109,6 +116,16 @@ def generate(tier, rng):
                 sep = b' ' if ls[i].rstrip(b' \t').endswith(b'/') else b''
                 new = b'\n'.join(ls[:i] + [ls[i] + sep + b'//' + txt] + ls[i + 1:])
                 cases.append(Case(new, stdin=b'5\n7\nabc\n', meta=dict(gen='single-comment', base=bi, linemap={str(k + 1): k + 1 for k in range(len(ls))}, sample=False)))
+    # exhaustive single inserted line (blank, blanks only, comment, comment without text) at every line boundary of the small programs
+    for bi, src in enumerate(bases):
+        ls = lines_of(src)
+        if len(ls) > 14:
+            continue
+        for i in range(len(ls) + 1):
+            for filler in (b'', b'  \t', b'// c', b'//'):
+                new = b'\n'.join(ls[:i] + [filler] + ls[i:])
+                lm = {str(k + 1): (k + 1 if k < i else k + 2) for k in range(len(ls))}
+                cases.append(Case(new, stdin=b'5\n7\nabc\n', meta=dict(gen='single-line-inserted', base=bi, linemap=lm, sample=False)))
     return cases
 
 _orig = {}
